@@ -21,7 +21,7 @@ func init() { Register(c09{}) }
 func (c09) ID() string { return "C09" }
 
 // event kinds over a small universe of agents
-var c09Kinds = []string{"connect", "disconnect", "disconnect-fail", "exit", "killdate", "markdead", "markalive", "connect-new"}
+var c09Kinds = []string{"connect", "disconnect", "disconnect-fail", "exit", "killdate", "markdead", "markalive", "connect-new", "connect-id0", "connect-dbfault"}
 
 func (c09) Gen(seed uint64, run int, tier string) *Plan {
 	r := genRand(seed, "C09", run)
@@ -91,6 +91,8 @@ type c09State struct {
 	db    *sql.DB
 	newN  int
 	r     *simrt.Rand
+	// agents whose link row may be off: a write to the link table failed (injected) while they moved
+	faulted map[string]bool
 }
 
 func (st *c09State) rid(d *world.Demon) uint32 {
@@ -160,6 +162,38 @@ func (st *c09State) apply(a Action) {
 		if a.A%n == a.B%n {
 			res.Probe("connect-to-self")
 		}
+	case "connect-id0":
+		// the same report, but the header of the packet from the pipe carries agent id 0: only its
+		// encrypted part names X
+		pkt := X.InitPacket()
+		pkt[8], pkt[9], pkt[10], pkt[11] = 0, 0, 0, 0
+		var pb world.PB
+		pb.Int32(world.PivotSMBConnect).Int32(1).Bytes(pkt)
+		P.Out = append(P.Out, world.Pkg{Cmd: world.CmdPivot, RID: 0, Body: pb.B})
+		send(P)
+	case "connect-dbfault":
+		// the reconnect of X below P is reported while the link table cannot be written (the
+		// statement fails as it would on a full disk or a locked database); the in-memory forest has
+		// to stay consistent, the table may be off for X only
+		rw, err := sql.Open("sqlite3", "file:"+w.Dir+"/data/teamserver.db")
+		if err != nil {
+			return
+		}
+		if _, err = rw.Exec(`ALTER TABLE "TS_Links" RENAME TO "TS_Links_away"`); err != nil {
+			rw.Close()
+			return
+		}
+		var pb world.PB
+		pb.Int32(world.PivotSMBConnect).Int32(1).Bytes(X.InitPacket())
+		P.Out = append(P.Out, world.Pkg{Cmd: world.CmdPivot, RID: 0, Body: pb.B})
+		send(P)
+		rw.Exec(`ALTER TABLE "TS_Links_away" RENAME TO "TS_Links"`)
+		rw.Close()
+		if st.faulted == nil {
+			st.faulted = map[string]bool{}
+		}
+		st.faulted[X.NameID()] = true
+		res.Probe("link-table-write-faults")
 	case "connect-new":
 		if st.newN >= 3 {
 			return
@@ -320,12 +354,15 @@ func (st *c09State) check(after string) {
 	for rows.Next() {
 		var p, l int64
 		rows.Scan(&p, &l)
+		if st.faulted[fmt.Sprintf("%08x", uint32(l))] {
+			continue
+		}
 		dbl = append(dbl, fmt.Sprintf("%08x>%08x", uint32(p), uint32(l)))
 	}
 	rows.Close()
 	var mem []string
 	for _, x := range agents {
-		if x.Pivots.Parent != nil {
+		if x.Pivots.Parent != nil && !st.faulted[x.NameID] {
 			mem = append(mem, x.Pivots.Parent.NameID+">"+x.NameID)
 		}
 	}
